@@ -33,9 +33,14 @@ package db
 //@   ensures !lk_shared && !lk_pending && !other_shared
 //@   ensures err == nil ==> r0 != nil
 
+// The mapping covers the bytes the file had when it was opened (map_len); file_len is the length the
+// file has now (other connections' commits change it).
+//@ ghost file_len bv64
+//@ ghost map_len bv64
 //@ extern (*golang.org/x/exp/mmap.ReaderAt).ReadAt
 //@   modifies M:bv8
 //@   ensures 0 <= r0 && r0 <= len(p)
+//@   ensures [range] err == nil <==> (0 <= off && off + len(p) <= map_len)
 
 //@ extern (*golang.org/x/exp/mmap.ReaderAt).Close
 //@   pure
@@ -107,11 +112,14 @@ package db
 //@   ensures [stable] peer_stable ==> peer_state == old(peer_state)
 
 // page: a fresh buffer of one page; the lock state is not touched (no descriptor is opened or closed).
+// [reach]: every page the file has now can be read (C08: a read transaction sees the latest committed
+// state). This does not hold: the mapping has the length the file had at Open (known finding F8).
 //@ func (*db.filePager).page
 //@   props C06 C08 C05
 //@   modifies M:bv8 alloc
 //@   requires f != nil && 0 <= pagesize && pagesize <= 65536
 //@   ensures [buffer] len(r0) == pagesize && fresh(r0)
+//@   ensures [reach] 0 <= map_len && map_len <= 281474976710656 && 1 <= id && id <= 4294967295 && 1 <= pagesize && id * pagesize <= file_len ==> err == nil
 
 // newFilePager: must not disturb the locks other handles of this process hold on the file.
 //@ func db.newFilePager
